@@ -447,6 +447,7 @@ func flushLog() {
 		case v := <-logQueue:
 			v.writer.Write(v.value)
 		default:
+			verifYield("flushLog.beforeInnerSelect")
 			select {
 			case v := <-logQueue:
 				v.writer.Write(v.value)
